@@ -1214,7 +1214,29 @@ class Models:
             bi = st.fresh_int("ci")
             depth = len(st.dec.trail)
             npc = len(st.pc)
+            n_fresh0 = st.n_fresh
+            n_fresh1 = [10 ** 9]  # frozen right after the element expression has been evaluated
             from .engine import PyRaise
+
+            def _element_consts(f):
+                """The constants created while the element expression was evaluated for the generic index (results of callee contracts,
+                contents of objects it allocates...) that occur in f: they belong to ONE element, not to the comprehension."""
+                stack, seen, out = [f], set(), []
+                while stack:
+                    t = stack.pop()
+                    if t.get_id() in seen:
+                        continue
+                    seen.add(t.get_id())
+                    if z3.is_quantifier(t):
+                        stack.append(t.body())
+                        continue
+                    if z3.is_const(t) and t.decl().kind() == z3.Z3_OP_UNINTERPRETED:
+                        nm = t.decl().name()
+                        tail = nm.rsplit("!", 1)[-1]
+                        if "!" in nm and tail.isdigit() and n_fresh0 < int(tail) <= n_fresh1[0]:
+                            out.append(t)
+                    stack.extend(t.children())
+                return out
 
             def _mentions_bi(f):
                 stack, seen = [f], set()
@@ -1225,8 +1247,26 @@ class Models:
                     seen.add(t.get_id())
                     if t.eq(bi):
                         return True
+                    if z3.is_quantifier(t):
+                        stack.append(t.body())
+                        continue
                     stack.extend(t.children())
-                return False
+                return bool(_element_consts(f))
+
+            _sk_funcs = {}
+
+            def skol(t):
+                """Replace the per-element constants of t by Skolem functions of the generic index."""
+                cs = _element_consts(t)
+                if not cs:
+                    return t
+                subs = []
+                for c in cs:
+                    nm = c.decl().name()
+                    if nm not in _sk_funcs:
+                        _sk_funcs[nm] = z3.Function(nm + "!at", z3.IntSort(), c.sort())
+                    subs.append((c, _sk_funcs[nm](bi)))
+                return z3.substitute(t, *subs)
 
             ex.no_fork = True
             raised = None
@@ -1240,6 +1280,7 @@ class Models:
             finally:
                 ex.no_fork = False
                 st.solver.pop()
+            n_fresh1[0] = st.n_fresh
             new_facts = st.pc[npc + 1:]
             forked = len(st.dec.trail) != depth
             if (forked or raised is not None) and any(_mentions_bi(f) for f in new_facts):
@@ -1255,17 +1296,37 @@ class Models:
                 st.assume(seq.n > 0)
                 raise raised
             i = z3.Int("i!c")
+            if not forked:
+                # what was learnt about the generic element (e.g. the postcondition of a contract called by the element expression) holds
+                # for every element: generalise it, the per-element constants becoming functions of the index
+                for f in new_facts:
+                    if not _mentions_bi(f):
+                        continue
+                    g = z3.substitute(skol(f), (bi, i))
+                    apps = {}
+                    stack = [g]
+                    while stack:
+                        t = stack.pop()
+                        if z3.is_quantifier(t):
+                            continue
+                        if z3.is_app(t) and t.decl().name().endswith("!at") and t.num_args() == 1 and t.arg(0).eq(i):
+                            apps[t.get_id()] = t
+                        stack.extend(t.children())
+                    body_f = z3.Implies(z3.And(0 <= i, i < seq.n), g)
+                    st.assume(z3.ForAll([i], body_f, patterns=list(apps.values())) if apps else z3.ForAll([i], body_f))
+            cond = skol(cond)
+            val = _skolem_value(ex, val, skol)
             if kind in ("list", "gen"):
                 if gen.ifs:
-                    return self._filtered_sequence(ex, seq, cond, val, bi, kind)
+                    return self._filtered_sequence(ex, seq, cond, val, bi, kind, skol)
                 if kind == "gen":
                     return IterV(seq.n, lambda j: _subst_value(ex, val, bi, j))
                 t = type_of_value(st, val)
-                e = t.embed(st, val)
+                e = skol(t.embed(st, val))
                 return st.alloc(ListObj(t, seq.n, z3.Lambda([i], z3.substitute(e, (bi, i)))))
             if kind == "set":
                 kt = type_of_value(st, val)
-                e = kt.embed(st, val)
+                e = skol(kt.embed(st, val))
                 k = z3.Const("k!c", kt.sort())
                 mem = z3.Lambda([k], z3.Exists([i], z3.And(0 <= i, i < seq.n, z3.substitute(cond, (bi, i)), z3.substitute(e, (bi, i)) == k)))
                 o = SetObj(kt, mem, st.fresh_int("cn"))
@@ -1276,7 +1337,7 @@ class Models:
             # dict comprehension
             kv, vv = val
             kt, vt = type_of_value(st, kv), type_of_value(st, vv)
-            ke, ve = kt.embed(st, kv), vt.embed(st, vv)
+            ke, ve = skol(kt.embed(st, kv)), skol(vt.embed(st, vv))
             k = z3.Const("k!c", kt.sort())
             j = z3.Int("j!c")
             key_at = lambda t: z3.substitute(ke, (bi, t))  # noqa: E731
@@ -1322,7 +1383,7 @@ class Models:
             fr.env.clear()
             fr.env.update(saved)
 
-    def _filtered_sequence(self, ex, seq, cond, val, bi, kind):
+    def _filtered_sequence(self, ex, seq, cond, val, bi, kind, skol=None):
         """[val(x) for x in seq if cond(x)] over a symbolic sequence: the sub-sequence of the kept
         elements, described by the strictly increasing source-index map ``src`` and its inverse ``dst``."""
         from .engine import IterV
@@ -1330,6 +1391,8 @@ class Models:
         st = ex.st
         t = type_of_value(st, val)
         e = t.embed(st, val)
+        if skol is not None:
+            e = skol(e)
         n = st.fresh_int("fn")
         res = st.fresh_const("fel", z3.ArraySort(z3.IntSort(), t.sort()))
         src = st.fresh_const("fsrc", z3.ArraySort(z3.IntSort(), z3.IntSort()))
@@ -1367,6 +1430,21 @@ class Models:
         if o is not None and o.keys is not None:
             return z3.simplify(ke).eq(z3.simplify(o.keys[bi]))
         return False
+
+
+def _skolem_value(ex, v, skol):
+    """Apply the per-element Skolemisation to the terms of a comprehension element value."""
+    st = ex.st
+    if isinstance(v, SV):
+        return SV(skol(v.term), v.ty)
+    if isinstance(v, tuple):
+        return tuple(_skolem_value(ex, x, skol) for x in v)
+    if isinstance(v, Ref) and isinstance(st.heap[v.id], SetObj) and not st.heap[v.id].is_empty_literal:
+        o = st.heap[v.id]
+        c = SetObj(o.k, skol(o.member), skol(o.n))
+        c.ty = o.ty
+        return st.alloc(c)
+    return v
 
 
 def _subst_value(ex, v, bi, j):
